@@ -24,6 +24,15 @@ CLIENT_ADDR = ("1.2.3.4", 1234)
 CLIENT_ADDR2 = ("1.2.3.5", 4321)
 SERVER_ADDR = ("2.3.4.5", 4433)
 
+
+def client_addr(k: int):
+    """0: the client's address, 1: its address after rebinding, >=2: spoofed third-party addresses."""
+    if k == 0:
+        return CLIENT_ADDR
+    if k == 1:
+        return CLIENT_ADDR2
+    return ("6.6.6.%d" % (k % 250), 6000 + k)
+
 V1 = 0x00000001
 V2 = 0x6B3343CF
 
@@ -144,6 +153,17 @@ def make_configs(opts: dict):
     return ccfg, scfg
 
 
+def apply_conn_opts(conn, opts, side):
+    """Workload setup that QuicConfiguration does not expose: the stream-count limits an endpoint
+    advertises (max_streams_bidi_<side>, max_streams_uni_<side>). Set before the handshake."""
+    for kind in ("bidi", "uni"):
+        v = opts.get("max_streams_%s_%s" % (kind, side))
+        if v is not None:
+            lim = getattr(conn, "_local_max_streams_" + kind)
+            lim.value = v
+            lim.sent = v
+
+
 class Fates:
     """Content-independent per-datagram fates. deliveries(direction, index, t) ->
     list of (delay, alt_addr: bool, corrupt: bool)."""
@@ -169,11 +189,16 @@ class Fates:
         if alt:
             self.counts["rebound"] += 1
         forced = p.get("forced", {}).get("%s:%d" % (direction, index))
+        spoof = []
+        if direction == "c2s" and index < p.get("spoof_datagrams", 1) and p.get("spoof_first"):
+            # the same bytes also arrive from k third-party source addresses (address spoofing)
+            spoof = [(base * (1.0 + 0.1 * i), 2 + i, False) for i in range(p["spoof_first"])]
+            self.counts["spoofed"] = self.counts.get("spoofed", 0) + len(spoof)
         if not self.adversarial(t) and forced is None:
             if self.fair_since is None:
                 self.fair_since = t
             self.counts["deliver"] += 1
-            return [(base, alt, False)]
+            return [(base, alt, False)] + spoof
         rng = random.Random("%s/%s/%d" % (self.seed, direction, index))
         if forced is not None:
             kind = forced
@@ -211,7 +236,7 @@ class Fates:
             self.counts["corrupt_first"] += 1
             out.insert(0, (max(out[0][0] - 1e-5, 0.0), alt, True))
         self.counts["deliver"] += 1
-        return out
+        return out + spoof
 
 
 class SimNet:
@@ -240,6 +265,7 @@ class SimNet:
         self.ccfg, self.scfg = ccfg, scfg
         self.tap = Tap({"client": ccfg.connection_id_length, "server": scfg.connection_id_length}) if tap else None
         self.client = Endpoint("client", QuicConnection(configuration=ccfg, **(client_conn_kwargs or {})), CLIENT_ADDR)
+        apply_conn_opts(self.client.conn, opts, "client")
         self.server = None
         self.server_conn_kwargs = server_conn_kwargs or {}
         self.script = sorted(script, key=lambda o: o["t"])
@@ -248,6 +274,7 @@ class SimNet:
         self.datagrams = {"client": [], "server": []}
         self.in_flight = 0
         self.timer_spins = 0
+        self.corrupt_pos = None
         self.written = {}  # (side, stream_id) -> bytes written
         self.fin_written = set()
         self.reset_by_sender = set()  # (side, sid)
@@ -280,6 +307,19 @@ class SimNet:
         if len(self.history) < 5000:
             self.history.append((round(self.now, 6), ep.name, name, _digest_args(args), _digest_ret(ret)))
         return ret
+
+    def views_possibly_intact(self, rec, altered):
+        """PacketViews of a delivered datagram that may have reached the receiver unmodified: all of
+        them for a genuine delivery; for a corrupted copy those whose bytes do not contain the
+        flipped byte (a superset of what the receiver can authenticate)."""
+        if not altered:
+            return list(rec.views or [])
+        out, pos = [], 0
+        for v in rec.views or []:
+            if not (pos <= (self.corrupt_pos if self.corrupt_pos is not None else -1) < pos + v.size):
+                out.append(v)
+            pos += v.size
+        return out
 
     # ------------------------------------------------------------ driver cycle
     def _after(self, ep, cause):
@@ -347,6 +387,9 @@ class SimNet:
         direction = "c2s" if ep is self.client else "s2c"
         fate = self.fates.deliveries(direction, rec.index, self.now)
         rec.fate = fate
+        if ep is self.server and addr not in (CLIENT_ADDR, CLIENT_ADDR2):
+            rec.fate = "blackholed (sent to a third-party address)"
+            return
         for delay, alt, corrupt in fate:
             self.in_flight += 1
             self._push(self.now + delay, "deliver", (rec, alt, corrupt))
@@ -362,6 +405,7 @@ class SimNet:
         dlen = first_datagram[5]
         dcid = first_datagram[6 : 6 + dlen]
         conn = QuicConnection(configuration=self.scfg, original_destination_connection_id=dcid, **self.server_conn_kwargs)
+        apply_conn_opts(conn, self.opts, "server")
         self.server = Endpoint("server", conn, SERVER_ADDR)
         return True
 
@@ -387,15 +431,17 @@ class SimNet:
                 if rec.sender == "client":
                     if not self._ensure_server(rec.data):
                         continue
-                    dst, src = self.server, (CLIENT_ADDR2 if alt else CLIENT_ADDR)
+                    dst, src = self.server, client_addr(int(alt))
                 else:
                     dst, src = self.client, SERVER_ADDR
                 data = rec.data
+                self.corrupt_pos = None
                 if corrupt:
                     b = bytearray(data)
                     pos = (rec.index * 7919 + 13) % len(b)
                     b[pos] ^= 0x20
                     data = bytes(b)
+                    self.corrupt_pos = pos
                 for m in self.monitors:
                     m.on_deliver(dst, rec, src, self.now, altered=corrupt)
                 dst.started = True
